@@ -3,7 +3,8 @@
 import json, os, shutil, sys
 HERE = os.path.dirname(os.path.dirname(os.path.abspath(__file__)))
 for pid in sys.argv[1:]:
-    src = '/tmp/wt/%s/_seeded' % pid
+    base = os.environ.get('SEED_BASE', '/tmp/wt')
+    src = '%s/%s/_seeded' % (base, pid)
     if not os.path.isdir(src):
         print(pid, 'no _seeded dir'); continue
     for name in sorted(os.listdir(src)):
@@ -15,7 +16,7 @@ for pid in sys.argv[1:]:
         for f in ('patch.diff', 'demo.py'):
             shutil.copy(os.path.join(d, f), os.path.join(dst, f))
         meta = json.load(open(os.path.join(d, 'meta.json')))
-        meta['worktree'] = '/tmp/wt/%s' % pid
+        meta['worktree'] = '%s/%s' % (base, pid)
         meta['origin'] = 'independent sub-agent given only the property text and its own scratch worktree'
         json.dump(meta, open(os.path.join(dst, 'meta.json'), 'w'), indent=1)
         print('imported', name)
